@@ -4,24 +4,29 @@ from vlib import std, hbuild, coq, recipes, common
 
 PID = "C26"
 META = {
-    "text": "Theorems (Properties_C26.v, closed under the global context) state for ALL field values, ALL sequences of "
-            "Content-Length fields and ALL header blocks, in strict and relaxed mode, that the Gallina transcription of "
-            "Http::ContentLengthInterpreter (findDigits/goodSuffix/checkValue/checkList/checkField), httpHeaderParseOffset "
-            "(strtoll semantics) and the Content-Length/Transfer-Encoding branches of HttpHeader::parse yields a framing "
-            "length v exactly when every Content-Length occurrence is an optional-whitespace-delimited decimal < 2^63 with "
-            "the same value v (strict mode: exactly one occurrence, no list); otherwise the header is rejected or flagged "
-            "(conflictingContentLength) and getInt64(Content-Length) is -1; the value used is always the decimal present "
-            "in the field. The list case is proved under the hypothesis 'no VT/FF in list fields' (partial) because the "
-            "full statement is refuted by the real code: see known finding C26-list-stops-at-vt-item. The model is tied to "
-            "the code by a differential run of the extracted model against the real ContentLengthInterpreter, "
-            "httpHeaderParseOffset and HttpHeader::parse compiled from the working tree (UBSan).",
-    "note": "Trusted: Coq kernel, extraction, gen/gen_charsets.cc (DIGIT/TCHAR/Whitespace/Delimiter sets per mode), "
+    "text": "Theorems (Properties_C26.v, 16, all closed under the global context) about the Gallina transcription of "
+            "Http::ContentLengthInterpreter (findDigits/goodSuffix/checkValue/checkList/checkField incl. strListGetItem), "
+            "httpHeaderParseOffset (strtoll semantics) and HttpHeader::parse (line loop, HttpHeaderEntry::parse, the "
+            "Content-Length/Transfer-Encoding branches, putInt64/getInt64): for ALL items, checkValue extracts v iff the "
+            "item is OWS 1*DIGIT OWS (the mode's regenerated white-space sets) with value v < 2^63; for ALL field "
+            "sequences: strict mode uses v iff there is exactly one field and it is such a token; relaxed mode uses v iff "
+            "every occurrence (fields, and comma-separated elements trimmed, empty ones ignored) is a token of the same v "
+            "(lists: _partial, for values without NUL and, in list-like fields, without VT/FF/double quote); otherwise "
+            "sawBad. For ALL entry lists / header blocks: getInt64(Content-Length) is != -1 only if the interpreter uses "
+            "exactly that value, no Transfer-Encoding is present, Content-Length is not prohibited and the header is not "
+            "flagged; if no value is used the result is -1 and conflictingContentLength is set unless no occurrence was "
+            "examined. The unrestricted list statement is REFUTED by the real code (C26_*_refuted: `1,<VT>,5` is used "
+            "as 1) = known finding C26-list-stops-at-vt-item. Tie: extracted model vs the real interpreter, "
+            "httpHeaderParseOffset and HttpHeader::parse compiled from the working tree (UBSan), 0 disagreements.",
+    "note": "Trusted: Coq kernel, extraction, gen/gen_charsets.cc (DIGIT/TCHAR/Whitespace/Delimiter per mode), "
             "harness/h_clen.cc; ClenModel.v is validated against the code only on the generated cases. With "
-            "Transfer-Encoding present or for 1xx/204/trailers Content-Length is deleted whatever its state (not flagged): "
-            "theorems state that it is then never used. An all-empty list ('Content-Length: ,') counts as no value.",
-    "technique": "Coq proof (induction over value bytes, list items, field sequences and entry lists; vm_compute sweeps over "
-                 "the regenerated 256-entry character tables) + extracted-model differential correspondence + independent "
-                 "Python oracle on the implementation's answers",
+            "Transfer-Encoding present or for 1xx/204/trailers Content-Length is deleted whatever its state and the header "
+            "is not flagged: the theorem states that it is then never used. An all-empty list ('Content-Length: ,') counts "
+            "as no value (dropped, not flagged). Header-name lookup is modelled only for Content-Length/Transfer-Encoding; "
+            "owners hoRequest/hoReply. Candidate repair for the finding: fixes/C26-list-stops-at-vt-item.diff.",
+    "technique": "Coq proof (three-state automaton abstraction of the interpreter, induction over value bytes, list items, "
+                 "field sequences and entry lists; vm_compute sweep over the regenerated 256-entry character tables) + "
+                 "extracted-model differential correspondence + independent Python oracle on the implementation's answers",
 }
 
 FRESH = ["src/http/ContentLengthInterpreter.cc", "src/HttpHeaderTools.cc", "src/HttpHeader.cc", "src/StrList.cc",
@@ -30,8 +35,13 @@ FRESH = ["src/http/ContentLengthInterpreter.cc", "src/HttpHeaderTools.cc", "src/
 UB = ["-O1", "-g", "-fsanitize=undefined", "-fno-sanitize=vptr", "-fno-sanitize-recover=all"]
 
 
+# the harness defines `Config` itself (as tests/testHttpReply.cc does); keep working whether or not the shared
+# recipe lists SquidConfig.o
+LINK = [x for x in recipes.HTTPREPLY if x != "SquidConfig.o"]
+
+
 def impl():
-    return hbuild.build("h_clen", "h_clen.cc", fresh=FRESH, link=recipes.HTTPREPLY, sanitize=None,
+    return hbuild.build("h_clen", "h_clen.cc", fresh=FRESH, link=LINK, sanitize=None,
                         flags=UB, syslibs=["-fsanitize=undefined"] + hbuild.SYSLIBS)
 
 
@@ -408,5 +418,5 @@ def run(res, tier):
                        "(case-insensitive); owners modelled: hoRequest, hoReply")
     std.run_standard(res, PID, tier, area="clen", build_impl=impl, gen_cases=gen_cases, oracle=oracle,
                      corr_name="ClenModel vs src/http/ContentLengthInterpreter.cc, src/HttpHeaderTools.cc, src/HttpHeader.cc",
-                     gens=["charsets"], n_quick=40000, n_thorough=600000, seed_salt=26, mutate=mutate,
+                     gens=["charsets"], n_quick=50000, n_thorough=800000, seed_salt=26, mutate=mutate,
                      kind_fn=kind, nontrivial_fn=nontrivial)
